@@ -313,6 +313,15 @@ class Func:
             nid = self.parent.get(nid)
         return None
 
+    def macros(self, n):
+        """Macro expansion stack at the start of a node (innermost first)."""
+        if "macro" in n:
+            return n["macro"]
+        for a in self.ancestors(n):
+            if "macro" in a:
+                return a["macro"]
+        return []
+
     def ancestors(self, n):
         p = self.parent.get(n["id"])
         while p is not None:
